@@ -48,6 +48,9 @@ pub fn run(ctx: &mut Ctx) {
 static mut LAST_CALL: [u8; 320] = [0; 320];
 static mut LAST_LEN: usize = 0;
 
+// For other drivers: what to print if the process dies with a fatal signal.
+pub fn note_call(s: &str) { install_crash_reporter(); set_last_call(s); }
+
 fn set_last_call(s: &str) {
     unsafe {
         let b = s.as_bytes();
@@ -170,7 +173,7 @@ fn hostile_raw(h: &mut Hd, rng: &mut Rng, raw: &mut RawVector, steps: usize) {
     for _ in 0..steps {
         let len = raw.len();
         let (a, cls) = hostile(rng, len);
-        match rng.below(16) {
+        match rng.below(17) {
             0 => h.call("RawVector::bit", cls, a, || raw.bit(a)),
             1 => { let (w, c) = hostile(rng, (len + 63) / 64); h.call("RawVector::word", c, w, || raw.word(w)) },
             2 | 3 => { let v = rng.chance(1, 2); h.call("RawVector::set_bit", cls, a, || raw.set_bit(a, v)) },
@@ -185,6 +188,17 @@ fn hostile_raw(h: &mut Hd, rng: &mut Rng, raw: &mut RawVector, steps: usize) {
             12 => h.call("RawVector::as_ref", "-", 0, || { let w: &[u64] = raw.as_ref(); w.len() }),
             13 => { let n = std::cmp::min(a, if cfg!(miri) { 200 } else { 5000 }); h.call("RawVector::with_len", cls, n, || { *raw = RawVector::with_len(n, true); }) },
             14 => h.call("RawVector::capacity", "-", 0, || (raw.capacity(), raw.len(), raw.is_empty())),
+            16 => {
+                // Lengths whose word count wraps around (no allocation happens): a panic is fine, a vector whose length
+                // and buffer disagree is not, and the bitvector built on it must not read outside the buffer.
+                let n = usize::MAX - rng.below(63);
+                let v = rng.chance(1, 2);
+                h.call("RawVector::with_len", "wrap", n, || {
+                    let x = RawVector::with_len(n, v);
+                    let bv = BitVector::from(x.clone());
+                    (x.bit(0), x.count_ones(), bv.zero_iter().next(), bv.one_iter().next_back(), bv.get(n - 1))
+                })
+            },
             _ => h.call("RawVector::size_by_params", cls, a, || RawVector::size_by_params(std::cmp::min(a, usize::MAX - 64))),
         }
     }
